@@ -4,4 +4,4 @@ import sdp_common
 
 
 def run(ctx):
-    return sdp_common.run_sdp(ctx, "C09", ['default','fallback','alwaysdc'], 150, 4000, ['MidNeverChanges','PositionStable','NoMidReuse'])
+    return sdp_common.run_sdp(ctx, "C09", ['default', 'fallback', 'alwaysdc', 'novideoB'], 150, 4000, ['MidNeverChanges','PositionStable','NoMidReuse'])
